@@ -12,6 +12,10 @@ from tiv.mutate import M
 from tiv.sem import trace, same_bool
 
 RULES = {
+    "R6": "input echo / terminal attributes: the C13 save-modify-restore rules (rules/c13.py) hold for Renderable.draw - the attributes saved before the change are "
+          "the ones written back, on every exit",
+    "MEMO": "memo safety (shared, rules/common.py): a memoised function in this property's files (or called from them) is a function of its "
+            "arguments only (no terminal/ambient/receiver state outside the key) and no caller mutates its result in place",
     "R1": "every write of HIDE_CURSOR lies inside the body of a try whose finally writes SHOW_CURSOR under a condition implied by "
           "the hide's own condition (so the cursor is shown again whenever it may have been hidden, whatever interrupts the draw); "
           "the old-API finally also resets text attributes (SGR_DEFAULT)",
@@ -207,13 +211,8 @@ def run(ck, m):
         ck.ob("R4", enclosing_stmt(u), inside,
               "the frame generator is advanced (a frame is rendered) outside the try whose handlers end the animation silently and whose finally restores "
               "the frame position: Ctrl-C or a failure during that render propagates and the image keeps the wrong current frame", stmt=f"_display_animated: {short(enclosing_stmt(u), 60)} inside try")
-    rnd = m.get(CM, "BaseImage._renderer")
-    rt = next((s for s in rnd.body if isinstance(s, ast.Try) and s.finalbody), None)
-    ck.need(rt is not None, "_renderer: try/finally not found")
-    sv = [s for s in rnd.body if isinstance(s, ast.Assign) and norm(s.value) == "self._size" and s.lineno < rt.lineno]
-    ok = bool(sv) and any(isinstance(s, ast.If) and same_bool(rnd, s.test, f"isinstance({norm(sv[0].targets[0])}, Size)") and
-                          any(norm(x) in (f"self.size = {norm(sv[0].targets[0])}", f"self._size = {norm(sv[0].targets[0])}") for x in s.body) for s in rt.finalbody)
-    ck.ob("R4", rt, ok, "_renderer must save `self._size` before its try and restore a dynamic (Size) value in finally", stmt="_renderer: dynamic size restored")
+    from rules.common import rule_renderer_restores_size
+    rule_renderer_restores_size(ck, m, "R4")
     fins = [t for t in body_walk(draw_new) if isinstance(t, ast.Try) and t.finalbody]
     ck.ob("R4", draw_new, any("render_data.finalize()" == norm(s) for t in fins for s in t.finalbody), "Renderable.draw must finalize the render data in a finally", stmt="Renderable.draw: finalize in finally")
     fins = [t for t in body_walk(animate_new) if isinstance(t, ast.Try) and t.finalbody]
@@ -244,6 +243,37 @@ def run(ck, m):
     outer = next((s for s in animate_new.body if isinstance(s, ast.Try) and s.finalbody), None)
     ck.ob("R5", outer or animate_new, outer is not None and any(KI in handler_classes(h)[1] and not any(isinstance(x, ast.Raise) for st in h.body for x in walk_local(st)) for h in outer.handlers),
           "_animate_: the outer try must have a silent KeyboardInterrupt handler (Ctrl-C during sleep/render ends the animation)", stmt="_animate_: outer silent KI handler")
+
+    # ---- R6: terminal attributes (input echo) restored by draw(): the C13 rules, applied to Renderable.draw --------------------
+    from tiv.report import Scoped
+    import rules.c13 as c13
+    sc = Scoped(ck, "R6", lambda c: "Renderable.draw" in c)
+    c13.run(sc, m)
+    ck.expect(sc.kept >= 2, f"expected >= 2 termios obligations for Renderable.draw from the C13 rules, found {sc.kept}")
+
+    # ---- R5 (coverage): everything an animation can be interrupted in lies in the body of a try that catches KeyboardInterrupt ---
+    for fn in (animate_new, anim_old):
+        n_ops = 0
+        for c in body_walk(fn):
+            waits = isinstance(c, ast.Call) and (call_name(c) or "").split(".")[-1] in ("sleep", "next")
+            loops_ = isinstance(c, ast.For)
+            if not (waits or loops_):
+                continue
+            n_ops += 1
+            prot = False
+            for t, part in try_context(c):
+                if part == "body" and any(KI in handler_classes(h)[1] for h in t.handlers):
+                    prot = True
+                    break
+                if part != "body":
+                    break          # inside else/finally/handler of the nearest try: not covered by its handlers
+            ck.ob("R5", enclosing_stmt(c) if not loops_ else c, prot,
+                  f"{fn.name}: `{short(c, 50)}` (a wait / frame step of the animation) is not inside the body of a try that catches KeyboardInterrupt - code in an else/finally clause is not "
+                  "covered by the handlers - so Ctrl-C at that point propagates instead of ending the animation silently", stmt=f"{fn.name}: interruptible step protected: {short(c, 50)}")
+        ck.expect(n_ops >= 3, f"{fn.name}: expected >= 3 waits / frame steps, found {n_ops}")
+
+    from rules.common import rule_memo_safety
+    rule_memo_safety(ck, m, "MEMO", "C07")
 
 
 MUTANTS = [
